@@ -274,6 +274,14 @@ type built struct {
 func (g *gen) list(n int, types []string, mut int, sameKeyPerType bool) built {
 	b := built{classes: map[string]bool{}}
 	keyOf := map[string]int{}
+	if len(types) > 6 && g.r.Below(3) != 0 {
+		// a few types per list: the schema has many entity types, a group should still have several members
+		sub := make([]string, 0, 5)
+		for k := 2 + g.r.Below(4); k > 0; k-- {
+			sub = append(sub, types[g.r.Below(len(types))])
+		}
+		types = sub
+	}
 	for i := 0; i < n; i++ {
 		e := g.entity(types[g.r.Below(len(types))])
 		ri := 0
@@ -298,6 +306,28 @@ func (g *gen) list(n int, types []string, mut int, sameKeyPerType bool) built {
 	}
 	return b
 }
+
+// ensureMaps makes m[path[0]][path[1]]… objects (keeping the ones that are there)
+func ensureMaps(m map[string]any, path []string) {
+	for _, seg := range path {
+		sub, ok := m[seg].(map[string]any)
+		if !ok {
+			sub = map[string]any{}
+			m[seg] = sub
+		}
+		m = sub
+	}
+}
+
+func gcd(a, b int) int {
+	for b != 0 {
+		a, b = b, a%b
+	}
+	return a
+}
+
+// stateCap bounds the key-state product of one entity type (set from the tier)
+var stateCap = 240
 
 func copyRep(m map[string]any) map[string]any {
 	b, _ := json.Marshal(m)
@@ -329,6 +359,7 @@ func printCases(v Variant, probes string, seed uint64, tier string) {
 	scale := 1
 	if tier == "thorough" {
 		scale = 8
+		stateCap = 2400
 	}
 	emit := func(c CaseJ) {
 		c.Query = cfg.Query
@@ -553,16 +584,25 @@ func printCases(v Variant, probes string, seed uint64, tier string) {
 				}
 			}
 		}
+		// states of a key field with a path of L segments (3L of them): 0 value, 1 leaf null, 2.. segment
+		// L-1, L-2, .., 0 missing (everything above it present), then for every parent segment 0..L-2: null, not a map
 		nstates := make([]int, len(paths))
 		total := 1
 		for i, p := range paths {
-			nstates[i] = 3
-			if len(p) > 1 {
-				nstates[i] = 6
-			}
+			nstates[i] = 3 * len(p)
 			total *= nstates[i]
 		}
-		for code := 0; code < total; code++ {
+		// the whole product when it is small; else an evenly strided sample of it (code 0 = everything valid first)
+		count, stride := total, 1
+		if total > stateCap {
+			count = stateCap
+			stride = 7919
+			for gcd(stride, total) != 1 {
+				stride++
+			}
+		}
+		for it := 0; it < count; it++ {
+			code := (it * stride) % total
 			m := map[string]any{"__typename": e.Name}
 			c := code
 			n := g.next()
@@ -570,22 +610,22 @@ func printCases(v Variant, probes string, seed uint64, tier string) {
 				stt := c % nstates[i]
 				c /= nstates[i]
 				v, _ := g.keyValue(types[i], n, false)
-				switch stt {
-				case 0:
+				L := len(p)
+				switch {
+				case stt == 0:
 					setPath(m, p, v)
-				case 1:
+				case stt == 1:
 					setPath(m, p, nil)
-				case 2:
-					if len(p) > 1 {
-						if _, ok := m[p[0]].(map[string]any); !ok {
-							m[p[0]] = map[string]any{}
-						}
+				case stt < L+2:
+					d := L - 1 - (stt - 2) // this segment is missing, its parents are objects
+					ensureMaps(m, p[:d])
+				default:
+					j := stt - (L + 2)
+					var bad any
+					if j%2 == 1 {
+						bad = 7
 					}
-				case 3: // parent missing
-				case 4:
-					m[p[0]] = nil
-				case 5:
-					m[p[0]] = 7
+					setPath(m, p[:j/2+1], bad)
 				}
 			}
 			g.requires(e, m, 0)
@@ -604,6 +644,74 @@ func printCases(v Variant, probes string, seed uint64, tier string) {
 			}
 		}
 		flush()
+	}
+
+	// 9. key shapes: for every entity type with a nested key component or several @keys, lists in which its
+	//    representations carry exactly the fields of ONE of its keys (each key in turn), interleaved with another
+	//    type; the same with one member failing; every key at once (the first @key in directive order answers);
+	//    single mode: one representation per key in one list
+	for _, e := range cfg.Entities {
+		if len(e.Resolvers) == 0 {
+			continue
+		}
+		nested := false
+		for _, r := range e.Resolvers {
+			for _, k := range r.Keys {
+				nested = nested || len(k.Path) > 1
+			}
+		}
+		if !nested && len(e.Resolvers) < 2 {
+			continue
+		}
+		other := func() (map[string]any, []string) {
+			o := g.entity(singleTypes[g.r.Below(len(singleTypes))])
+			return g.rep(o, g.r.Below(len(o.Resolvers)), false)
+		}
+		for ri := range e.Resolvers {
+			var reps []map[string]any
+			var markers [][]string
+			var own []int
+			for j := 2 + g.r.Below(2); j > 0; j-- {
+				m, mk := g.rep(e, ri, false)
+				own = append(own, len(reps))
+				reps, markers = append(reps, m), append(markers, mk)
+				if g.r.Below(4) != 0 {
+					m, mk = other()
+					reps, markers = append(reps, m), append(markers, mk)
+				}
+			}
+			cl := fmt.Sprintf("key-shape:key-%d-of-%d", ri+1, len(e.Resolvers))
+			emit(CaseJ{ID: nid("shape"), Class: []string{"key-shape", cl}, Reps: reps})
+			j := own[1]
+			emit(CaseJ{ID: nid("shape"), Class: []string{"key-shape", cl, "user-fault"}, Reps: reps,
+				Plan: map[string]rt.Outcome{markers[j][0]: {Kind: []string{"error", "panic"}[g.r.Below(2)], Msg: "F" + strconv.Itoa(j)}}})
+		}
+		if len(e.Resolvers) > 1 {
+			all := map[string]any{"__typename": e.Name}
+			n := g.next()
+			for _, r := range e.Resolvers {
+				for _, k := range r.Keys {
+					v, _ := g.keyValue(k.Type, n, false)
+					setPath(all, k.Path, v)
+				}
+			}
+			g.requires(e, all, 0)
+			o1, _ := other()
+			emit(CaseJ{ID: nid("shape"), Class: []string{"key-shape", "key-shape:every-key"}, Reps: []map[string]any{o1, all, copyRep(all)}})
+			if !e.Multi {
+				var reps []map[string]any
+				for ri := len(e.Resolvers) - 1; ri >= 0; ri-- {
+					m, _ := g.rep(e, ri, false)
+					reps = append(reps, m)
+					if ri%2 == 1 {
+						o, _ := other()
+						reps = append(reps, o)
+					}
+				}
+				reps = append(reps, all)
+				emit(CaseJ{ID: nid("shape"), Class: []string{"key-shape", "key-shape:one-key-each"}, Reps: reps})
+			}
+		}
 	}
 
 	// 8. slow error presenter: the goroutine that resolved a failing representation is still inside ec.Error when
